@@ -630,6 +630,10 @@ def install(eng):
         return k
 
     def key_eq(eng, a, b):
+        a, b = key_of(eng, a), key_of(eng, b)     # &K keys compare through the reference
+        ve = getattr(a, 'value_eq', None)
+        if ve is not None:
+            return ve(eng, b)
         pb = getattr(a, 'ptr_binop', None)
         if pb is not None:
             return pb(eng, 'Eq', a, b)
@@ -902,6 +906,46 @@ def install(eng):
     m(r'^(std::ptr::|core::ptr::)?NonNull::(as_ptr|new_unchecked|cast)$', lambda e, a, c: a[0])
     m(r'^<(std::ptr::|core::ptr::)?NonNull as (std::convert::|core::convert::)?From>::from$', lambda e, a, c: a[0])
 
+    # ---------------------------------------------------------------- atomics (single threaded: a cell)
+    class AtomicV:
+        __slots__ = ('cell',)
+        rust_ty = 'Atomic'
+
+        def __init__(self, v):
+            self.cell = Cell(v)
+
+        def copy_value(self, eng):
+            return AtomicV(self.cell.get(eng))
+
+        def __repr__(self):
+            return f'atomic({self.cell.v!r})'
+    eng.AtomicV = AtomicV
+
+    def atom(eng, v):
+        while isinstance(v, Ref):
+            v = v.cell.get(eng)
+        if type(v) is Lazy:
+            v = v.force(eng)
+        if not isinstance(v, AtomicV):
+            raise Unsupported('expected an atomic, got ' + type(v).__name__)
+        return v
+    AT = r'^(std::sync::atomic::|core::sync::atomic::)?Atomic(Bool|Usize|U8|U16|U32|U64|Isize|I32|I64)?::'
+    m(AT + r'new$', lambda e, a, c: AtomicV(a[0]))
+    m(AT + r'load$', lambda e, a, c: atom(e, a[0]).cell.get(e))
+    m(AT + r'(into_inner|get_mut)$', lambda e, a, c: atom(e, a[0]).cell.get(e))
+
+    def m_atomic_store(e, a, c):
+        atom(e, a[0]).cell.set(e, a[1])
+        return UNIT
+    m(AT + r'store$', m_atomic_store)
+
+    def m_atomic_swap(e, a, c):
+        at = atom(e, a[0])
+        old = at.cell.get(e)
+        at.cell.set(e, a[1])
+        return old
+    m(AT + r'swap$', m_atomic_swap)
+
     def m_try_into_array(eng, args, ctx):
         # <&[T] as TryInto<[T; N]>>::try_into
         s = args[0]
@@ -1111,6 +1155,9 @@ def value_eq(eng, a, b, fr=None):
         for k in sorted(set(a.f) | set(b.f)):
             r = b_and(r, value_eq(eng, a.f[k].get(eng), b.f[k].get(eng), fr))
         return r
+    ve = getattr(a, 'value_eq', None)
+    if ve is not None:
+        return ve(eng, b)
     pb = getattr(a, 'ptr_binop', None)
     if pb is not None:
         return pb(eng, 'Eq', a, b)
